@@ -156,6 +156,13 @@ def emitUnion (a : Ast) (u : Union) : G UnionDec :=
      | none => G.ok (if didVoidDefault then Tail.none else Tail.errUnknown)).bind fun tail =>
     .ok ⟨u.switch.varName, disc, dataArms.flatten ++ voidArms, tail⟩
 
+/-- the Rust name a declaration's items are printed under -/
+def AstType.rustName : AstType → String
+  | .struct s => s.name
+  | .union u => u.name
+  | .enum e => e.name
+  | .typedef td => td.alias.unwrapArray.asStr
+
 def emitImpl (a : Ast) (t : AstType) : G Impl :=
   match t with
   | .struct s => (mapG (emitStructField a) s.fields).bind fun fs => .ok ⟨s.name, a.isGeneric s.name, .struct fs⟩
